@@ -43,8 +43,10 @@ class VariableElimination(Inference):
         dict: Modified working factors.
         """
 
+        # Lists (not sets) are used here because DiscreteFactor hashes and
+        # compares by value, and distinct factors with equal values must all be kept.
         working_factors = {
-            node: {(factor, None) for factor in self.factors[node]}
+            node: [(factor, None) for factor in self.factors[node]]
             for node in self.factors
         }
 
@@ -56,8 +58,12 @@ class VariableElimination(Inference):
                         [(evidence_var, evidence[evidence_var])], inplace=False
                     )
                     for var in factor_reduced.scope():
-                        working_factors[var].remove((factor, origin))
-                        working_factors[var].add((factor_reduced, evidence_var))
+                        working_factors[var] = [
+                            (phi, phi_origin)
+                            for phi, phi_origin in working_factors[var]
+                            if phi is not factor
+                        ]
+                        working_factors[var].append((factor_reduced, evidence_var))
                 del working_factors[evidence_var]
         return working_factors
 
@@ -171,11 +177,13 @@ class VariableElimination(Inference):
 
         # Dealing with the case when variables are not provided.
         if not variables:
-            all_factors = []
+            # Each factor is filed under all its variables; keep one per object.
+            all_factors = {}
             for factor_li in self.factors.values():
-                all_factors.extend(factor_li)
+                all_factors.update({id(factor): factor for factor in factor_li})
+            all_factors = list(all_factors.values())
             if joint:
-                return factor_product(*set(all_factors))
+                return factor_product(*all_factors)
             else:
                 return set(all_factors)
 
@@ -207,16 +215,18 @@ class VariableElimination(Inference):
             phi = getattr(phi, operation)([var], inplace=False)
             del working_factors[var]
             for variable in phi.variables:
-                working_factors[variable].add((phi, var))
+                working_factors[variable].append((phi, var))
             eliminated_variables.add(var)
 
         # Step 4: Prepare variables to be returned.
-        final_distribution = set()
+        # The same factor object is filed under each of its variables, so
+        # deduplicate by identity (not by value) to use each factor exactly once.
+        final_distribution = {}
         for node in working_factors:
             for factor, origin in working_factors[node]:
                 if not set(factor.variables).intersection(eliminated_variables):
-                    final_distribution.add((factor, origin))
-        final_distribution = [factor for factor, _ in final_distribution]
+                    final_distribution[id(factor)] = factor
+        final_distribution = list(final_distribution.values())
 
         if joint:
             if isinstance(self.model, BayesianNetwork):
